@@ -5,7 +5,9 @@ The message object of Model/Object.lean (mirror of /repo/message.go and
 /repo/field/composite.go) refines the abstract state of Spec/Presence.lean — a partial
 map from field ids to values — at every step of every operation history, and all
 observers (GetFields, the ids Pack flags, JSON keys, what Unmarshal copies, GetSubfields)
-read that one set. Unsetting a field or a subfield path leaves a brand-new object behind,
+read that one set: the domain of the abstract state (`observers_read_abs`). The bitmap field
+(id 1) is part of every message: it is in that domain from `NewMessage` on and no operation
+removes it (KF9 repaired; Pack / JSON / Describe / Clone are the identity on the abstract state). Unsetting a field or a subfield path leaves a brand-new object behind,
 so nothing written before the unset can come back.
 
 Hypotheses beyond the model:
@@ -37,8 +39,10 @@ theorem setField_refines (spec : MsgSpec) (hs : spec.tagsOK = true) (o : MsgObj)
   by_cases h1 : id = 1
   · subst h1
     simp only [if_true]
-    exact ⟨abs_mark1 spec o _ rfl (fun j => markId_contains 1 j o.present),
-           clean_mark1 spec o _ hc rfl (fun j => markId_contains 1 j o.present)⟩
+    have ha := abs_mark1 spec o { o with bitmap := b, present := markId 1 o.present } rfl
+      (fun j => markId_contains 1 j o.present)
+    rw [abs_set1 spec o hc] at ha
+    exact ⟨ha, clean_mark1 spec o _ hc rfl (fun j => markId_contains 1 j o.present)⟩
   · simp only [h1, if_false]
     cases hf : spec.fieldOf id with
     | none => exact ⟨by triv, hc⟩
@@ -51,7 +55,7 @@ theorem setField_refines (spec : MsgSpec) (hs : spec.tagsOK = true) (o : MsgObj)
       · rw [abs_update spec o _ id f _ hf rfl (fun j => markId_contains id j o.present)]
         rw [hr.1, cur_eq_valueOf spec o hc hf]
       · exact clean_update spec o _ id f _ hc hf (hr.2 (decodeOK_bodyDecodes hf hok)) rfl
-          (fun j => markId_contains id j o.present) rfl
+          (fun j => markId_contains id j o.present)
 
 theorem marshalField_refines (spec : MsgSpec) (hs : spec.tagsOK = true) (o : MsgObj) (id : Nat) (v : Value)
     (hc : o.Clean spec) :
@@ -71,7 +75,7 @@ theorem marshalField_refines (spec : MsgSpec) (hs : spec.tagsOK = true) (o : Msg
       refine ⟨?_, ?_, by triv⟩
       · rw [abs_update spec o _ id f _ hf rfl (fun j => markId_contains id j o.present)]
         rw [hr.1, cur_eq_valueOf spec o hc hf]
-      · exact clean_update spec o _ id f _ hc hf hr.2 rfl (fun j => markId_contains id j o.present) rfl
+      · exact clean_update spec o _ id f _ hc hf hr.2 rfl (fun j => markId_contains id j o.present)
     · simp only [hsh, Bool.false_eq_true, if_false]
       exact ⟨by triv, hc, by triv⟩
 
@@ -96,7 +100,7 @@ theorem jsonDecode_refines (spec : MsgSpec) (hs : spec.tagsOK = true) (doc : Lis
         have hcl := clean_mark1 spec o { o with bitmap := d, present := markId 1 o.present } hc rfl
           (fun j => markId_contains 1 j o.present)
         have := ih _ hcl
-        rw [ha] at this
+        rw [ha, abs_set1 spec o hc] at this
         exact this
       | str _ => exact ⟨by triv, hc⟩
       | num _ => exact ⟨by triv, hc⟩
@@ -119,11 +123,24 @@ theorem jsonDecode_refines (spec : MsgSpec) (hs : spec.tagsOK = true) (doc : Lis
       | err => exact ⟨ha, hcl⟩
       | panic => exact ⟨ha, hcl⟩
 
+/-- unset of the bitmap field: the object is replaced, the field stays -/
+theorem unsetField_one (spec : MsgSpec) (o : MsgObj) (hc : o.Clean spec) :
+    (o.unsetField 1).abs spec = o.abs spec ∧ (o.unsetField 1).Clean spec := by
+  have h1 : o.unsetField 1 = { o with cachedBitmap := false, bitmap := [] } := by
+    unfold MsgObj.unsetField; rw [hc.2.1]; rfl
+  rw [h1]
+  exact ⟨abs_same spec o _ rfl rfl, clean_same spec o _ hc rfl rfl⟩
+
 theorem unsetField_refines (spec : MsgSpec) (o : MsgObj) (id : Nat) (hc : o.Clean spec) :
-    (o.unsetField id).abs spec = (o.abs spec).erase id ∧ (o.unsetField id).Clean spec := by
+    (o.unsetField id).abs spec = specStep spec (o.abs spec) (.unsetField id) ∧
+    (o.unsetField id).Clean spec := by
+  simp only [specStep]
+  by_cases hid : id = 1
+  · subst hid; simp only [if_true]; exact unsetField_one spec o hc
+  simp only [hid, if_false]
   unfold MsgObj.unsetField
   by_cases hp : o.present.contains id = true
-  · simp only [hp, if_true]
+  · simp only [hp, if_true, hid, if_false]
     have hcont : ∀ j, (o.present.filter (fun i => i != id)).contains j = (j != id && o.present.contains j) := by
       intro j
       rw [Bool.eq_iff_iff]
@@ -139,12 +156,8 @@ theorem unsetField_refines (spec : MsgSpec) (o : MsgObj) (id : Nat) (hc : o.Clea
       refine ⟨?_, ?_, ?_⟩
       · intro i hi
         exact h1 i (List.mem_filter.mp hi).1
-      · intro hcb
-        by_cases hid : id = 1
-        · simp [hid] at hcb
-        · simp only [hid, if_false] at hcb
-          rw [hcont 1, h2 hcb]
-          simp [Ne.symm hid]
+      · rw [hcont 1, h2]
+        simp [Ne.symm hid]
       · intro j g hg
         unfold MsgObj.get
         simp only [hcont j, lookupId_eraseId]
@@ -170,11 +183,22 @@ theorem unsetPath_refines (spec : MsgSpec) (hs : spec.tagsOK = true) (o : MsgObj
     (o.unsetPath spec id path).1.Clean spec := by
   unfold MsgObj.unsetPath
   simp only [specStep]
+  by_cases hid : id = 1
+  · -- the bitmap field: `UnsetFields("1")` replaces the object, a longer path is refused
+    subst hid
+    simp only [if_true, hc.2.1]
+    by_cases hpe : path.isEmpty = true
+    · simp only [hpe, if_true]; exact unsetField_one spec o hc
+    · have hf1 : spec.fieldOf 1 = none := by simp [MsgSpec.fieldOf]
+      simp only [hpe, Bool.false_eq_true, if_false, hf1]
+      exact ⟨by triv, hc⟩
+  simp only [hid, if_false]
   by_cases hp : o.present.contains id = true
   · simp only [hp, if_true]
     by_cases hpe : path.isEmpty = true
     · simp only [hpe, if_true]
       have := unsetField_refines spec o id hc
+      simp only [specStep, hid, if_false] at this
       refine ⟨?_, this.2⟩
       rw [this.1]
       cases ha : o.abs spec id with
@@ -216,25 +240,26 @@ theorem unsetPath_refines (spec : MsgSpec) (hs : spec.tagsOK = true) (o : MsgObj
             · subst hj; simp [hp']
             · simp [hj]
           exact ⟨abs_update spec o { o with fields := setId id obj' o.fields } id f obj' hf rfl hpres,
-                 clean_update spec o { o with fields := setId id obj' o.fields } id f obj' hc hf hcl' rfl hpres rfl⟩
+                 clean_update spec o { o with fields := setId id obj' o.fields } id f obj' hc hf hcl' rfl hpres⟩
   · simp only [hp, Bool.false_eq_true, if_false]
     refine ⟨?_, hc⟩
     have hp' : id ∉ o.present := by simpa using hp
     have : o.abs spec id = none := by simp [MsgObj.abs, hp']
     simp [this]
 
-/-- Pack (and what calls it) only materialises the bitmap field -/
+/-- Pack (and what calls it) leaves the abstract state alone: it caches and recomputes the
+bitmap *object*, the bitmap *field* was marked all along -/
 theorem pack_refines (spec : MsgSpec) (o : MsgObj) (hc : o.Clean spec) :
-    (o.pack spec).1.abs spec = (o.abs spec).set 1 bitmapMark ∧ (o.pack spec).1.Clean spec := by
+    (o.pack spec).1.abs spec = o.abs spec ∧ (o.pack spec).1.Clean spec := by
   obtain ⟨hf, hp, hcb⟩ := touchBitmap_spec spec o hc
   unfold MsgObj.pack MsgObj.packOrd
-  exact ⟨abs_mark1 spec o _ hf hp, clean_mark1 spec o _ hc hf hp⟩
+  exact ⟨abs_same_set spec o _ hf hp, clean_same_set spec o _ hc hf hp⟩
 
 theorem describe_refines (spec : MsgSpec) (o : MsgObj) (hc : o.Clean spec) :
-    (o.describe spec).1.abs spec = (o.abs spec).set 1 bitmapMark ∧ (o.describe spec).1.Clean spec := by
+    (o.describe spec).1.abs spec = o.abs spec ∧ (o.describe spec).1.Clean spec := by
   obtain ⟨hf, hp, hcb⟩ := touchBitmap_spec spec o hc
   unfold MsgObj.describe
-  exact ⟨abs_mark1 spec o _ hf hp, clean_mark1 spec o _ hc hf hp⟩
+  exact ⟨abs_same_set spec o _ hf hp, clean_same_set spec o _ hc hf hp⟩
 
 /-! ### Unpack: the state is the content of the input -/
 
@@ -288,7 +313,7 @@ theorem unpack_refines (spec : MsgSpec) (hs : spec.tagsOK = true) (m : Msg) (bm 
           cases hf : lookupId i spec.fields with
           | none => simp [h0, h1, hf] at this
           | some f => rfl
-    · intro _; rw [objOfMsg_present]; simp
+    · rw [objOfMsg_present]; simp
     · intro i f hf
       have h1 := fieldOf_ne_one hf
       by_cases h0 : i = 0
@@ -359,8 +384,11 @@ theorem clean_newMsg (spec : MsgSpec) : (spec.newMsg).Clean spec := by
   rw [this]
   exact ⟨fun _ => rfl, clean_fresh f⟩
 
-theorem abs_newMsg (spec : MsgSpec) : (spec.newMsg).abs spec = AbsState.empty := by
-  funext i; simp [MsgObj.abs, MsgSpec.newMsg, AbsState.empty]
+theorem abs_newMsg (spec : MsgSpec) : (spec.newMsg).abs spec = AbsState.init := by
+  funext i
+  by_cases h1 : i = 1
+  · subst h1; simp [MsgObj.abs, MsgSpec.newMsg, AbsState.init]
+  · simp [MsgObj.abs, MsgSpec.newMsg, AbsState.init, h1]
 
 /-- all inputs of the history decode -/
 def HistoryDecodes (spec : MsgSpec) (h : List Op) : Prop := ∀ op, op ∈ h → op.decodeOK spec = true
@@ -368,7 +396,7 @@ def HistoryDecodes (spec : MsgSpec) (h : List Op) : Prop := ∀ op, op ∈ h →
 /-- the full-strength statement: refinement for *every* history -/
 def presence_refinementStatement : Prop :=
   ∀ (spec : MsgSpec), spec.tagsOK = true → ∀ (h : List Op),
-    (MsgObj.run spec spec.newMsg h).abs spec = specRun spec AbsState.empty h
+    (MsgObj.run spec spec.newMsg h).abs spec = specRun spec AbsState.init h
 
 /-- **Presence refinement.** From any clean message object (in particular a new one), along
 every history whose inputs decode, the object seen through `abs` follows the abstract
@@ -388,7 +416,7 @@ theorem presence_refinement_from (spec : MsgSpec) (hs : spec.tagsOK = true) (h :
 
 theorem presence_refinement_partial (spec : MsgSpec) (hs : spec.tagsOK = true) (h : List Op)
     (hd : HistoryDecodes spec h) :
-    (MsgObj.run spec spec.newMsg h).abs spec = specRun spec AbsState.empty h ∧
+    (MsgObj.run spec spec.newMsg h).abs spec = specRun spec AbsState.init h ∧
     (MsgObj.run spec spec.newMsg h).Clean spec := by
   have := presence_refinement_from spec hs h spec.newMsg (clean_newMsg spec) hd
   rwa [abs_newMsg] at this
@@ -396,7 +424,7 @@ theorem presence_refinement_partial (spec : MsgSpec) (hs : spec.tagsOK = true) (
 /-- the same for coherent specs (DESIGN §2.2): `MsgSpec.coherent` implies `tagsOK` -/
 theorem presence_refinement_coherent (spec : MsgSpec) (hc : spec.coherent = true) (h : List Op)
     (hd : HistoryDecodes spec h) :
-    (MsgObj.run spec spec.newMsg h).abs spec = specRun spec AbsState.empty h ∧
+    (MsgObj.run spec spec.newMsg h).abs spec = specRun spec AbsState.init h ∧
     (MsgObj.run spec spec.newMsg h).Clean spec :=
   presence_refinement_partial spec (tagsOK_of_coherent spec hc) h hd
 
@@ -407,7 +435,7 @@ history): for any message object `o`,
 * `GetFields` reports exactly the marked ids;
 * `Unmarshal` copies a wanted id iff it is marked (and is an id of the spec);
 * when `MarshalJSON` succeeds, its keys are (a permutation of, before sorting) the marked
-  ids of the message as it then is — the marked ids before plus the bitmap field;
+  ids (`json_keys_present`; the bitmap field is one of them from `NewMessage` on);
 * the ids `Pack` flags in the bitmap and emits are the marked data elements of the spec. -/
 theorem observers_agree (spec : MsgSpec) (o : MsgObj) :
     (o.step spec .getFields).2 = .ids o.sortedIds ∧
@@ -415,7 +443,7 @@ theorem observers_agree (spec : MsgSpec) (o : MsgObj) :
     (∀ want i, i ∈ o.unmarshalIds spec want ↔
         i ∈ want ∧ i ∈ o.present ∧ (i = 1 ∨ (spec.fieldOf i).isSome = true)) ∧
     (∀ i, i ∈ o.packedIds spec ↔
-        i ∈ (o.touchBitmap spec).present ∧ 2 ≤ i ∧ (lookupId i spec.fields).isSome = true) := by
+        i ∈ o.present ∧ 2 ≤ i ∧ (lookupId i spec.fields).isSome = true) := by
   refine ⟨rfl, ?_, ?_, ?_⟩
   · intro i
     exact (sortBy_perm' _ _).mem_iff
@@ -426,6 +454,24 @@ theorem observers_agree (spec : MsgSpec) (o : MsgObj) :
     · rintro ⟨h1, h2, h3⟩; exact ⟨h1, h3, h2⟩
     · rintro ⟨h1, h2, h3⟩; exact ⟨h1, h3, h2⟩
   · intro i
+    have htouch : 2 ≤ i → (i ∈ (o.touchBitmap spec).present ↔ i ∈ o.present) := by
+      intro h2
+      unfold MsgObj.touchBitmap
+      split
+      · exact Iff.rfl
+      · show i ∈ markId 1 o.present ↔ i ∈ o.present
+        rw [mem_markId]
+        constructor
+        · rintro (h | h)
+          · omega
+          · exact h
+        · exact Or.inr
+    suffices hs : i ∈ o.packedIds spec ↔
+        i ∈ (o.touchBitmap spec).present ∧ 2 ≤ i ∧ (lookupId i spec.fields).isSome = true by
+      rw [hs]
+      constructor
+      · rintro ⟨a, b, c⟩; exact ⟨(htouch b).mp a, b, c⟩
+      · rintro ⟨a, b, c⟩; exact ⟨(htouch b).mpr a, b, c⟩
     unfold MsgObj.packedIds
     rw [List.mem_map]
     constructor
@@ -482,6 +528,75 @@ theorem json_keys_present (spec : MsgSpec) (o : MsgObj) (hc : o.Clean spec) (j :
   | err => simp [hp] at hj
   | panic => simp [hp] at hj
 
+/-- the marked ids of a clean message are the domain of its abstract state -/
+theorem present_iff_abs (spec : MsgSpec) (o : MsgObj) (hc : o.Clean spec) (i : Nat) :
+    i ∈ o.present ↔ (o.abs spec i).isSome = true := by
+  unfold MsgObj.abs
+  constructor
+  · intro hi
+    rcases hc.1 i hi with h | h
+    · subst h; simp [hi]
+    · obtain ⟨f, hf⟩ := Option.isSome_iff_exists.mp h
+      by_cases h1 : i = 1
+      · subst h1; simp [hi]
+      · simp [hi, h1, hf]
+  · intro h
+    by_cases hi : i ∈ o.present
+    · exact hi
+    · simp [hi] at h
+
+theorem pack_present (spec : MsgSpec) (o : MsgObj) (hc : o.Clean spec) (i : Nat) :
+    i ∈ (o.pack spec).1.present ↔ i ∈ o.present := by
+  obtain ⟨_, hp, _⟩ := touchBitmap_spec spec o hc
+  have : (o.pack spec).1.present = (o.touchBitmap spec).present := by
+    unfold MsgObj.pack MsgObj.packOrd; rfl
+  rw [this, ← List.contains_iff_mem, hp i, List.contains_iff_mem]
+
+/-- **Every observer reads the abstract state** of a clean message (every message reached
+from `NewMessage` through decoding inputs is clean): the ids `GetFields` reports, the ids
+`Unmarshal` copies out of those wanted, the members of the JSON document, and — for data
+elements — the ids `Pack` flags in the bitmap and emits are exactly the ids on which the
+abstract state is defined. The bitmap field (id 1) is one of them from `NewMessage` on. -/
+theorem observers_read_abs (spec : MsgSpec) (o : MsgObj) (hc : o.Clean spec) :
+    (∀ i, i ∈ o.sortedIds ↔ (o.abs spec i).isSome = true) ∧
+    (∀ want i, i ∈ o.unmarshalIds spec want ↔ i ∈ want ∧ (o.abs spec i).isSome = true) ∧
+    (∀ i, i ∈ o.packedIds spec ↔ 2 ≤ i ∧ (o.abs spec i).isSome = true) ∧
+    (∀ j, (o.json spec).2 = some j →
+      ∀ k, k ∈ j.keys ↔ ∃ i, k = natToDec i ∧ (o.abs spec i).isSome = true) := by
+  obtain ⟨_, h2, h3, h4⟩ := observers_agree spec o
+  refine ⟨fun i => (h2 i).trans (present_iff_abs spec o hc i), ?_, ?_, ?_⟩
+  · intro want i
+    rw [h3 want i, ← present_iff_abs spec o hc i]
+    constructor
+    · rintro ⟨a, b, _⟩; exact ⟨a, b⟩
+    · rintro ⟨a, b⟩; exact ⟨a, b, hc.1 i b⟩
+  · intro i
+    rw [h4 i, ← present_iff_abs spec o hc i]
+    constructor
+    · rintro ⟨a, b, _⟩; exact ⟨b, a⟩
+    · rintro ⟨a, b⟩
+      refine ⟨b, a, ?_⟩
+      rcases hc.1 i b with h | h
+      · omega
+      · have : spec.fieldOf i = lookupId i spec.fields := by
+          unfold MsgSpec.fieldOf
+          have h0 : ¬ i = 0 := by omega
+          have h1 : ¬ i = 1 := by omega
+          simp [h0, h1]
+        rwa [this] at h
+  · intro j hj k
+    have hperm := json_keys_present spec o hc j hj
+    rw [hperm.mem_iff, List.mem_map]
+    have hfst : (o.json spec).1 = (o.pack spec).1 := json_fst spec o
+    constructor
+    · rintro ⟨i, hi, rfl⟩
+      rw [hfst, pack_present spec o hc i] at hi
+      exact ⟨i, rfl, (present_iff_abs spec o hc i).mp hi⟩
+    · rintro ⟨i, rfl, hi⟩
+      refine ⟨i, ?_, rfl⟩
+      rw [hfst, pack_present spec o hc i]
+      exact (present_iff_abs spec o hc i).mpr hi
+
 /-- `GetSubfields` of a composite object: its set tags, and its content lists exactly those -/
 theorem subfields_agree (s : CompSpec) (subs : List (Tag × Field)) (hd : noDupTags (subs.map (·.1)) = true)
     (objs : List (Tag × FieldObj)) (set : List Tag) (t : Tag) :
@@ -503,14 +618,16 @@ theorem subfields_agree (s : CompSpec) (subs : List (Tag × Field)) (hd : noDupT
 
 /-! ### unset discards -/
 
-/-- **UnsetField discards.** After `UnsetField(id)` the field is not marked and its object
-is brand new: no value or subfield written before survives in it — whatever the history
-before. -/
-theorem unset_discards_field (spec : MsgSpec) (o : MsgObj) (id : Nat) (f : Field) (hp : id ∈ o.present) :
+/-- **UnsetField discards.** After `UnsetField(id)` (a data element or the MTI) the field is
+not marked and its object is brand new: no value or subfield written before survives in it
+— whatever the history before. (The bitmap field, id 1, has no value of its own: its object
+is replaced and it stays marked, `unsetField_one`.) -/
+theorem unset_discards_field (spec : MsgSpec) (o : MsgObj) (id : Nat) (f : Field) (hp : id ∈ o.present)
+    (h1 : id ≠ 1) :
     id ∉ (o.unsetField id).present ∧ (o.unsetField id).get id f = f.fresh := by
   have hc : o.present.contains id = true := List.contains_iff_mem.mpr hp
   unfold MsgObj.unsetField
-  simp only [hc, if_true]
+  simp only [hc, if_true, h1, if_false]
   constructor
   · simp [List.mem_filter]
   · simp [MsgObj.get, lookupId_eraseId]
